@@ -105,8 +105,71 @@ func init() {
 		if thr < 0 {
 			return "", fmt.Errorf("charInSlow: `if n <= K` not found")
 		}
+		// lcTable: {chMin, chMax, op, data}
+		consts, _, err := s.intConsts("syntax/charclass.go")
+		if err != nil {
+			return "", err
+		}
+		f, err := s.file("syntax/charclass.go")
+		if err != nil {
+			return "", err
+		}
+		var lc [][4]int64
+		for _, d := range f.Decls {
+			gd, ok := d.(*ast.GenDecl)
+			if !ok || gd.Tok != token.VAR {
+				continue
+			}
+			for _, sp := range gd.Specs {
+				vs := sp.(*ast.ValueSpec)
+				for i, n := range vs.Names {
+					if n.Name != "lcTable" || i >= len(vs.Values) {
+						continue
+					}
+					cl, ok := vs.Values[i].(*ast.CompositeLit)
+					if !ok {
+						return "", fmt.Errorf("lcTable is not a composite literal")
+					}
+					for _, el := range cl.Elts {
+						row, ok := el.(*ast.CompositeLit)
+						if !ok || len(row.Elts) != 4 {
+							return "", fmt.Errorf("lcTable: row is not a 4-tuple")
+						}
+						var r [4]int64
+						for k, e := range row.Elts {
+							v, ok := evalInt(e, consts, 0)
+							if !ok {
+								return "", fmt.Errorf("lcTable: element is not a constant")
+							}
+							r[k] = v
+						}
+						lc = append(lc, r)
+					}
+				}
+			}
+		}
+		if len(lc) == 0 {
+			return "", fmt.Errorf("lcTable not found")
+		}
+		for _, k := range []string{"LowercaseSet", "LowercaseAdd", "LowercaseBor", "LowercaseBad"} {
+			if _, ok := consts[k]; !ok {
+				return "", fmt.Errorf("constant %s not found", k)
+			}
+		}
 		var sb strings.Builder
 		sb.WriteString("namespace RegexVerif.Generated\n\n")
+		sb.WriteString("/-- `lcTable` of syntax/charclass.go: (chMin, chMax, op, data) -/\n")
+		sb.WriteString("def lcTable : List (Nat × Nat × Nat × Int) := [\n")
+		for i, r := range lc {
+			sep := ","
+			if i == len(lc)-1 {
+				sep = ""
+			}
+			fmt.Fprintf(&sb, "  (%d, %d, %d, %d)%s\n", r[0], r[1], r[2], r[3], sep)
+		}
+		sb.WriteString("]\n\n")
+		fmt.Fprintf(&sb, "def lowercaseSet : Nat := %d\ndef lowercaseAdd : Nat := %d\ndef lowercaseBor : Nat := %d\ndef lowercaseBad : Nat := %d\n\n",
+			consts["LowercaseSet"], consts["LowercaseAdd"], consts["LowercaseBor"], consts["LowercaseBad"])
 		sb.WriteString("/-- the range tables of `addNamedASCII` in syntax/charclass.go: (name, [(First, Last)…]) -/\n")
 		sb.WriteString("def posixTables : List (String × List (Nat × Nat)) := [\n")
 		for i, t := range tabs {
